@@ -119,6 +119,63 @@ def absorbed_qualification(fid, confirmed, now, val):
     return any(v and sub.match(a.strip()) for a, v in val.items())
 
 
+def redeclaration_operands(ck, F, prefix, only=None):
+    """A declaration entered into a scope that already holds declarations reports its own operands; borrowed by C09 for type()."""
+    what = 'every accessor except those of the shared bookkeeping (master, decl-set, primary template, definition)' if only is None \
+        else 'the accessor(s) ' + ', '.join(sorted(only))
+    R_re = ck.rule(f'{prefix}.redeclaration-operands', 'a declaration entered into a scope that already holds declarations (redeclaration, new type '
+                   f'under a known name, new name) reports, under {what}, what a first declaration with the same '
+                   'arguments reports: the bookkeeping path taken does not change the operands exposed', floor=16)
+    import re as _re
+    SK = Sym(F, opaque=keyrule.key_opaque(F), max_depth=64)
+    makers = [g for g in F.fns_in('ipr::impl::Scope') if g['name'].startswith('make_') and g.get('body') is not None]
+    if len(makers) < 8:
+        raise AnalysisBroken(f'only {len(makers)} Scope::make_* functions found')
+
+    def unq(sv):
+        return _re.sub(r'P1(\d\d)', lambda m: 'P' + str(int(m.group(1))), sv) if isinstance(sv, str) else sv
+    for g in sorted(makers, key=lambda g: g['id']):
+        try:
+            firsts = [r for r in SK.run(g['id']) if r[1] == 'return']
+            if not firsts:
+                raise AnalysisBroken(f'{g["id"]}: no returning path on an empty scope')
+            cases = []
+            for st1, _k, v1 in firsts:
+                first = v1[1] if v1[0] == 'addr' else v1
+                a1 = contracts.observe(SK, F, st1, first, contracts.name_paths(st1, first))
+                for r in SK.run(g['id'], args=keyrule.qparams(len(g['params'])), state=st1.fork()):
+                    if r[1] == 'return':
+                        cases.append((st1, a1, r))
+        except Unsupported as e:
+            raise AnalysisBroken(f'{g["id"]}: outside the evaluator language: {e}')
+        for j, (st1, a1, (st2, _k2, v2)) in enumerate(cases):
+            node = v2[1] if v2[0] == 'addr' else v2
+            a2 = contracts.observe(SK, F, st2, node, contracts.name_paths(st2, node))
+            # (what a redeclaration shares with the first declaration by design -- C07's subject -- is not an operand)
+            SHARED = ('master', 'primary_template', 'decl_set', 'specializations', 'definition')
+            diff = {k: (a1.get(k), unq(a2.get(k))) for k in set(a1) | set(a2)
+                    if k not in SHARED and (only is None or k in only) and a1.get(k) != unq(a2.get(k))}
+            # an operand of the *first* request showing through the second declaration is this request's operand only if the path
+            # found it equal: the lookup that succeeded was made with this request's own argument as its key
+            same_as_first = sorted({contracts.render(keyrule.subst_q(c[2]), st2, {}) for c, val in st2.conds[len(st1.conds):]
+                                    if val and isinstance(c, tuple) and c[:1] == ('found',) and c[3] is not None
+                                    and keyrule.subst_q(c[2]) != c[2]}, key=len, reverse=True)
+            for k in set(a2):
+                if k in SHARED or (only is not None and k not in only) or k in diff or not isinstance(a2.get(k), str):
+                    continue
+                rest = a2[k]
+                for fine in same_as_first:
+                    rest = rest.replace(fine, '~')
+                stale = sorted({int(m) for m in _re.findall(r'\bP(\d+)\b', rest) if int(m) < keyrule.Q})
+                if stale:
+                    diff[k] = (a1.get(k), a2[k] + f' -- the first declaration\'s argument P{stale[0]}, which no lookup of this path found equal to this request\'s')
+            how = contracts.render_conds(st2.conds[len(st1.conds):], st2, {})
+            kind = 'redeclaration' if how.count('found(') == 2 and '!found' not in how else ('new type' if how.startswith('found(') else 'new name')
+            ck.check(R_re, f'Scope::{g["name"]}/second request#{j} ({kind})', not diff,
+                     f'{g["id"]} ({kind}): ' + '; '.join(f'{k}() yields `{str(b)[:70]}` where a first declaration yields `{str(a)[:70]}`' for k, (a, b) in sorted(diff.items())),
+                     loc=g['loc'], fn=g['id'])
+
+
 def run(ck, F):
     ck.explanation = (
         'Every factory (all members of the nine factory classes returning a node, plus the member builders of '
@@ -223,39 +280,7 @@ def run(ck, F):
     c11.merge_rule_for(ck, F, 'C02')
     # a declaration entered a second time (same name and type: a redeclaration; or a new type under a known name) reports its own
     # operands like a first declaration does
-    R_re = ck.rule('C02.redeclaration-operands', 'a declaration entered into a scope that already holds declarations (redeclaration, new type '
-                   'under a known name, new name) reports, under every accessor except those of the shared bookkeeping (master, decl-set, primary template, definition), what a first declaration with the same '
-                   'arguments reports: the bookkeeping path taken does not change the operands exposed', floor=16)
-    import re as _re
-    SK = Sym(F, opaque=keyrule.key_opaque(F), max_depth=64)
-    makers = [g for g in F.fns_in('ipr::impl::Scope') if g['name'].startswith('make_') and g.get('body') is not None]
-    if len(makers) < 8:
-        raise AnalysisBroken(f'only {len(makers)} Scope::make_* functions found')
-
-    def unq(sv):
-        return _re.sub(r'P1(\d\d)', lambda m: 'P' + str(int(m.group(1))), sv) if isinstance(sv, str) else sv
-    for g in sorted(makers, key=lambda g: g['id']):
-        try:
-            firsts = [r for r in SK.run(g['id']) if r[1] == 'return']
-            if len(firsts) != 1:
-                raise AnalysisBroken(f'{g["id"]}: {len(firsts)} paths on an empty scope')
-            st1, _k, v1 = firsts[0]
-            first = v1[1] if v1[0] == 'addr' else v1
-            a1 = contracts.observe(SK, F, st1, first, contracts.name_paths(st1, first))
-            seconds = [r for r in SK.run(g['id'], args=keyrule.qparams(len(g['params'])), state=st1.fork()) if r[1] == 'return']
-        except Unsupported as e:
-            raise AnalysisBroken(f'{g["id"]}: outside the evaluator language: {e}')
-        for j, (st2, _k2, v2) in enumerate(seconds):
-            node = v2[1] if v2[0] == 'addr' else v2
-            a2 = contracts.observe(SK, F, st2, node, contracts.name_paths(st2, node))
-            # (what a redeclaration shares with the first declaration by design -- C07's subject -- is not an operand)
-            SHARED = ('master', 'primary_template', 'decl_set', 'specializations', 'definition')
-            diff = {k: (a1.get(k), unq(a2.get(k))) for k in set(a1) | set(a2) if k not in SHARED and a1.get(k) != unq(a2.get(k))}
-            how = contracts.render_conds(st2.conds[len(st1.conds):], st2, {})
-            kind = 'redeclaration' if how.count('found(') == 2 and '!found' not in how else ('new type' if how.startswith('found(') else 'new name')
-            ck.check(R_re, f'Scope::{g["name"]}/second request#{j} ({kind})', not diff,
-                     f'{g["id"]} ({kind}): ' + '; '.join(f'{k}() yields `{str(b)[:70]}` where a first declaration yields `{str(a)[:70]}`' for k, (a, b) in sorted(diff.items())),
-                     loc=g['loc'], fn=g['id'])
+    redeclaration_operands(ck, F, 'C02')
 
     # a node that is given a spelling reports the String interned for it: that String views exactly the bytes and the length of
     # the request (the arena copy made by make_string(word.data(), word.length())), whatever bytes the spelling contains
